@@ -6,6 +6,7 @@
 //!                   order - a cross-check of the Coq spec, not the oracle
 //!  D <n> <slot>...  root directory of a crafted FAT16 volume filled with the 32-byte slots, listed
 //!                   with VolumeManager::iterate_dir_lfn and an n-byte LfnBuffer
+//!  F <n> <slot>...  the same on a crafted FAT32 volume (root directory = cluster chain from cluster 2)
 //!  C <slot>         OnDiskDirEntry::lfn_contents
 //!  U <units>        core::char::decode_utf16 + char::encode_utf8
 //!  X s c stride     digest of encode_utf8 over scalar values
@@ -38,7 +39,8 @@ const CLUSTERS: u32 = 4085;
 const TOTAL: u32 = 1 + FAT_BLOCKS + ROOT_BLOCKS + CLUSTERS;
 
 struct Ram {
-    blocks: Vec<[u8; 512]>, // blocks 0 .. ROOT_START+ROOT_BLOCKS; everything beyond reads as zero
+    blocks: Vec<[u8; 512]>, // the first blocks of the device; everything beyond reads as zero
+    total: u32,
 }
 impl BlockDevice for Ram {
     type Error = ();
@@ -57,7 +59,7 @@ impl BlockDevice for Ram {
         Ok(())
     }
     fn num_blocks(&self) -> Result<BlockCount, ()> {
-        Ok(BlockCount(LBA_START + TOTAL))
+        Ok(BlockCount(self.total))
     }
 }
 struct Clock;
@@ -99,18 +101,86 @@ fn image(slots: &[Vec<u8>]) -> Ram {
         let off = (i % 16) * 32;
         blocks[blk][off..off + 32].copy_from_slice(&s[..32]);
     }
-    Ram { blocks }
+    Ram { blocks, total: LBA_START + TOTAL }
 }
 
-fn list_dir(n: usize, slots: &[Vec<u8>]) -> Result<Vec<String>, String> {
-    let mgr: VolumeManager<Ram, Clock, 4, 4, 1> = VolumeManager::new_with_limits(image(slots), Clock, 100);
+// ---- crafted FAT32 volume: MBR, boot sector at LBA 1, FS info at LBA 2, one FAT of 512 blocks,
+// 65525 clusters of one block; the root directory is the chain 2 -> 3 -> ... (16 slots per cluster)
+const F32_RESERVED: u32 = 2;
+const F32_FAT_BLOCKS: u32 = 512;
+const F32_CLUSTERS: u32 = 65525;
+const F32_DATA_START: u32 = LBA_START + F32_RESERVED + F32_FAT_BLOCKS;
+const F32_TOTAL: u32 = F32_RESERVED + F32_FAT_BLOCKS + F32_CLUSTERS;
+
+fn image32(slots: &[Vec<u8>]) -> Ram {
+    let nclus = std::cmp::max(1, (slots.len() + 15) / 16) as u32;
+    let mut blocks = vec![[0u8; 512]; (F32_DATA_START + nclus) as usize];
+    {
+        let mbr = &mut blocks[0];
+        mbr[446 + 4] = 0x0C;
+        mbr[446 + 8..446 + 12].copy_from_slice(&LBA_START.to_le_bytes());
+        mbr[446 + 12..446 + 16].copy_from_slice(&F32_TOTAL.to_le_bytes());
+        mbr[510] = 0x55;
+        mbr[511] = 0xAA;
+    }
+    {
+        let b = &mut blocks[LBA_START as usize];
+        b[0] = 0xEB;
+        b[1] = 0x58;
+        b[2] = 0x90;
+        b[3..11].copy_from_slice(b"VERIF   ");
+        b[11..13].copy_from_slice(&512u16.to_le_bytes());
+        b[13] = 1;
+        b[14..16].copy_from_slice(&(F32_RESERVED as u16).to_le_bytes());
+        b[16] = 1;
+        b[21] = 0xF8;
+        b[32..36].copy_from_slice(&F32_TOTAL.to_le_bytes());
+        b[36..40].copy_from_slice(&F32_FAT_BLOCKS.to_le_bytes());
+        b[44..48].copy_from_slice(&2u32.to_le_bytes());
+        b[48..50].copy_from_slice(&1u16.to_le_bytes());
+        b[510] = 0x55;
+        b[511] = 0xAA;
+    }
+    {
+        let b = &mut blocks[(LBA_START + 1) as usize];
+        b[0..4].copy_from_slice(&0x4161_5252u32.to_le_bytes());
+        b[484..488].copy_from_slice(&0x6141_7272u32.to_le_bytes());
+        b[488..492].copy_from_slice(&0xFFFF_FFFFu32.to_le_bytes());
+        b[492..496].copy_from_slice(&0xFFFF_FFFFu32.to_le_bytes());
+        b[508..512].copy_from_slice(&0xAA55_0000u32.to_le_bytes());
+    }
+    {
+        // FAT: entries 0, 1 reserved; the root chain 2 -> 3 -> ... -> end of chain
+        let fat = (LBA_START + F32_RESERVED) as usize;
+        let mut put = |c: u32, v: u32| {
+            let off = (c * 4) as usize;
+            blocks[fat + off / 512][off % 512..off % 512 + 4].copy_from_slice(&v.to_le_bytes());
+        };
+        put(0, 0x0FFF_FFF8);
+        put(1, 0x0FFF_FFFF);
+        for c in 0..nclus {
+            put(2 + c, if c + 1 == nclus { 0x0FFF_FFFF } else { 3 + c });
+        }
+    }
+    for (i, s) in slots.iter().enumerate() {
+        let blk = F32_DATA_START as usize + i / 16;
+        let off = (i % 16) * 32;
+        blocks[blk][off..off + 32].copy_from_slice(&s[..32]);
+    }
+    Ram { blocks, total: LBA_START + F32_TOTAL }
+}
+
+fn list_dir(n: usize, slots: &[Vec<u8>], fat32: bool) -> Result<Vec<String>, String> {
+    let first = if fat32 { F32_DATA_START } else { ROOT_START };
+    let img = if fat32 { image32(slots) } else { image(slots) };
+    let mgr: VolumeManager<Ram, Clock, 4, 4, 1> = VolumeManager::new_with_limits(img, Clock, 100);
     let vol = mgr.open_raw_volume(VolumeIdx(0)).map_err(|e| format!("{:?}", e))?;
     let dir = mgr.open_root_dir(vol).map_err(|e| format!("{:?}", e))?;
     let mut storage = vec![0u8; n];
     let mut lfn = LfnBuffer::new(&mut storage);
     let mut lines = Vec::new();
     mgr.iterate_dir_lfn(dir, &mut lfn, |de, name| {
-        let idx = (de.entry_block.0 - ROOT_START) as usize * 16 + de.entry_offset as usize / 32;
+        let idx = (de.entry_block.0 - first) as usize * 16 + de.entry_offset as usize / 32;
         let raw = if idx < slots.len() { hex(&slots[idx][0..11]) } else { format!("?{}", idx) };
         match name {
             Some(s) => lines.push(format!("E {} {} lfn={}", raw, de.name.csum(), hex(s.as_bytes()))),
@@ -163,10 +233,11 @@ fn main() {
                 }
                 writeln!(out, "L={}", hex(String::from_utf16_lossy(&units).as_bytes())).unwrap();
             }
-            ["D", n, toks @ ..] => {
+            [cmd @ ("D" | "F"), n, toks @ ..] => {
+                let fat32 = *cmd == "F";
                 let n: usize = n.parse().unwrap();
                 let slots: Vec<Vec<u8>> = toks.iter().map(|t| unhex(t)).collect();
-                match catch_unwind(AssertUnwindSafe(|| list_dir(n, &slots))) {
+                match catch_unwind(AssertUnwindSafe(|| list_dir(n, &slots, fat32))) {
                     Ok(Ok(lines)) => {
                         for l in lines {
                             writeln!(out, "{}", l).unwrap();
